@@ -1,1 +1,328 @@
-pub fn run(_ctx: &crate::Ctx) -> i32 { eprintln!("not built yet"); 2 }
+//! C04 — packets are read from a byte stream exactly at APDU boundaries.
+
+use crate::script::{block_on, Chunking, Entry, Ev, Polled, Script, Term};
+use crate::sut::{guarded, panic_signature};
+use crate::Ctx;
+use refcodec::evidence::{sharded, Report};
+use refcodec::hex;
+use refcodec::prng::{fnv, Rng};
+use serde_json::json;
+use std::pin::Pin;
+use zvt::io::PacketTransport;
+use zvt::{ZVTResult, ZvtParser};
+
+/// Accepts any bytes: framing is observed in isolation.
+pub struct Raw(pub Vec<u8>);
+impl ZvtParser for Raw {
+    fn zvt_parse(bytes: &[u8]) -> ZVTResult<Self> {
+        Ok(Raw(bytes.to_vec()))
+    }
+}
+
+/// Independent framing rule: total length of the packet starting at b, if its header is complete.
+fn frame_len(b: &[u8]) -> Option<usize> {
+    if b.len() < 3 {
+        return None;
+    }
+    if b[2] == 0xff {
+        if b.len() < 5 {
+            return None;
+        }
+        Some(5 + (b[3] as usize | ((b[4] as usize) << 8)))
+    } else {
+        Some(3 + b[2] as usize)
+    }
+}
+
+/// Split `stream[..eof_at]` into complete packets by the independent rule.
+fn expected_packets(stream: &[u8]) -> Vec<&[u8]> {
+    let mut out = vec![];
+    let mut off = 0;
+    while let Some(n) = frame_len(&stream[off..]) {
+        if off + n > stream.len() {
+            break;
+        }
+        out.push(&stream[off..off + n]);
+        off += n;
+    }
+    out
+}
+
+#[derive(Debug)]
+enum ReadRes {
+    Ok(Vec<u8>),
+    Err(String),
+    Stuck,
+    Panic(String),
+    Runaway,
+}
+
+fn read_one(transport: &mut PacketTransport<Term>) -> ReadRes {
+    match guarded(|| {
+        let mut fut = Box::pin(transport.read_packet::<Raw>());
+        match block_on(Pin::new(&mut fut)) {
+            Polled::Ready(Ok(Raw(b))) => ReadRes::Ok(b),
+            Polled::Ready(Err(e)) => ReadRes::Err(format!("{e:#}")),
+            Polled::Stuck => ReadRes::Stuck,
+            Polled::Runaway => ReadRes::Runaway,
+        }
+    }) {
+        Ok(r) => r,
+        Err(p) => ReadRes::Panic(p),
+    }
+}
+
+/// One schedule: deliver `stream[..eof_at]` under `chunking`, then end of stream; call read_packet until it fails.
+fn run_schedule(r: &mut Report, stream: &[u8], eof_at: usize, chunking: Chunking, pend_between: bool, hashed: bool, record: bool) {
+    let data = &stream[..eof_at];
+    let expected = expected_packets(data);
+    let mut script = Script::new(vec![Entry { bytes: data.to_vec(), gate: 0 }]);
+    script.eof = true;
+    script.chunking = chunking.clone();
+    script.pend_between = pend_between;
+    let term = Term::new(script);
+    term.0.lock().unwrap().record_payloads = record;
+    let mut transport = PacketTransport { source: term.clone() };
+    if hashed {
+        let mut h = fnv(data) ^ (eof_at as u64) << 32;
+        if let Chunking::Cuts(c) = &chunking {
+            for x in c {
+                h = h.wrapping_mul(31).wrapping_add(*x as u64);
+            }
+        }
+        r.case(h, !data.is_empty());
+    } else {
+        r.case_enumerated(!data.is_empty());
+    }
+    let case = || json!({"kind": "transport", "stream": if data.len() <= 64 { hex(data) } else { format!("{} bytes, head {}", data.len(), hex(&data[..16])) }, "chunking": format!("{chunking:?}").chars().take(200).collect::<String>(), "pending_between_chunks": pend_between, "eof_after": eof_at, "expected_packets": expected.len()});
+    let mut consumed = 0usize;
+    for (k, want) in expected.iter().enumerate() {
+        match read_one(&mut transport) {
+            ReadRes::Ok(b) => {
+                consumed += want.len();
+                if b != *want {
+                    r.violation("read_packet returns other bytes than the k-th packet", &format!("packet {k}: got {} bytes {}, expected {} bytes {}", b.len(), hex(&b[..b.len().min(24)]), want.len(), hex(&want[..want.len().min(24)])), case());
+                    return;
+                }
+                let cur = term.delivered();
+                if cur != consumed {
+                    r.violation("read_packet consumes a different number of bytes than header + announced body", &format!("after packet {k} the stream cursor is at {cur}, the packets so far are {consumed} bytes"), case());
+                    return;
+                }
+            }
+            ReadRes::Err(e) => {
+                r.violation("read_packet fails although the packet was completely delivered", &format!("packet {k}: Err({e})"), case());
+                return;
+            }
+            ReadRes::Stuck => {
+                r.violation("read_packet parks although the packet was completely delivered", &format!("packet {k}"), case());
+                return;
+            }
+            ReadRes::Panic(p) => {
+                r.violation(&format!("read_packet {}", panic_signature(&p)), &format!("packet {k}: {p}"), case());
+                return;
+            }
+            ReadRes::Runaway => {
+                r.inconclusive("harness poll guard fired in C04");
+                return;
+            }
+        }
+    }
+    // the stream now ends inside or before the next packet: an error, never a packet
+    for attempt in 0..2 {
+        match read_one(&mut transport) {
+            ReadRes::Err(_) => {}
+            ReadRes::Ok(b) => {
+                r.violation("read_packet returns a packet that was not completely delivered", &format!("after {} complete packets, attempt {attempt}: Ok({} bytes {}) although only {} bytes remained before end of stream", expected.len(), b.len(), hex(&b[..b.len().min(24)]), data.len() - consumed), case());
+                return;
+            }
+            ReadRes::Stuck => {
+                r.violation("read_packet parks at end of stream instead of failing", &format!("after {} complete packets", expected.len()), case());
+                return;
+            }
+            ReadRes::Panic(p) => {
+                r.violation(&format!("read_packet at end of stream {}", panic_signature(&p)), &p, case());
+                return;
+            }
+            ReadRes::Runaway => {
+                r.inconclusive("harness poll guard fired in C04");
+                return;
+            }
+        }
+    }
+    if record && r.wants_sample() && data.len() > 6 && data.len() < 40 && matches!(&chunking, Chunking::Cuts(c) if c.len() > 1) {
+        let log = term.log();
+        let reads: Vec<usize> = log.iter().filter_map(|e| if let Ev::R(b) = e { Some(b.len()) } else { None }).collect();
+        r.sample(json!({"stream": hex(data), "eof_after": eof_at, "chunk_sizes_delivered": reads, "packets_returned": expected.len()}));
+    }
+}
+
+/// write_packet of a real command whose body is exactly `l` bytes; returns what was written.
+fn write_body_of_len(l: usize) -> Result<Vec<u8>, String> {
+    use zvt::packets;
+    let term = Term::new(Script::new(vec![]));
+    term.0.lock().unwrap().record_payloads = true;
+    let mut transport = PacketTransport { source: term.clone() };
+    let res = guarded(|| {
+        if l == 0 {
+            let mut fut = Box::pin(transport.write_packet(&packets::Ack {}));
+            matches!(block_on(Pin::new(&mut fut)), Polled::Ready(Ok(())))
+        } else {
+            let text: String = (0..l - 1).map(|i| (b'a' + (i % 26) as u8) as char).collect();
+            let msg = packets::PrintLine { attribute: (l % 251) as u8, text };
+            let mut fut = Box::pin(transport.write_packet(&msg));
+            matches!(block_on(Pin::new(&mut fut)), Polled::Ready(Ok(())))
+        }
+    });
+    match res {
+        Ok(true) => Ok(term.written_bytes()),
+        Ok(false) => Err("write_packet did not complete".into()),
+        Err(p) => Err(p),
+    }
+}
+
+pub fn run(ctx: &Ctx) -> i32 {
+    let mut report = ctx.report("C04", "exploration");
+    report.rule = "(i) header agreement exhaustively for body lengths 0..65535: write_packet of a real command with exactly L body bytes, header compared with the independent formula, then read back through read_packet whole / with the header delivered byte-wise / split at every header offset; (ii) every sequence of 1-4 packets of total length <= 15 (quick: <= 13) incl. non-shortest FF headers: all 2^(n-1) partitions into read results x every end-of-stream position, with and without a Pending wake-up between chunks; (iii) sequences of up to 8 packets with bodies to 65535 (254/255/256 included): byte-wise, every single split point, random partitions, sampled end-of-stream positions. Checked after every return: the k-th packet's bytes, the stream cursor == sum of packet lengths, error (not a packet, not parking) when the stream ends inside a packet. Non-trivial = non-empty stream; (i)/(ii) are duplicate-free enumerations, (iii) hashed.".into();
+    report.exhaustive = Some(true);
+    report.assumptions = vec!["independent framing rule: 3-byte header, or 5 bytes when the third byte is FF with a little-endian 16-bit length".into(), "RawPacket parser accepts any bytes so that framing is observed in isolation".into()];
+    let threads = ctx.threads;
+    let quick = ctx.quick();
+    let seed = ctx.seed;
+    // (i) header agreement, all body lengths
+    sharded(&mut report, threads, |shard, r| {
+        let mut l = shard;
+        while l <= 65535 {
+            r.case_enumerated(true);
+            let case = json!({"kind": "header", "body_len": l});
+            match write_body_of_len(l) {
+                Err(p) => r.violation(&format!("write_packet {}", if p.contains(':') { panic_signature(&p) } else { p.clone() }), &format!("body length {l}: {p}"), case),
+                Ok(w) => {
+                    let expected_header: Vec<u8> = if l < 255 { vec![l as u8] } else { vec![0xff, l as u8, (l >> 8) as u8] };
+                    let hl = 2 + expected_header.len();
+                    if w.len() != hl + l || w[2..hl] != expected_header[..] {
+                        r.violation("write_packet emits a different length header than the specification", &format!("body length {l}: header {} (total {} bytes), expected ..{} (total {})", hex(&w[..w.len().min(5)]), w.len(), hex(&expected_header), hl + l), case);
+                    } else {
+                        // read back: whole; header byte-wise; split at every header offset
+                        run_schedule(r, &w, w.len(), Chunking::Whole, false, false, false);
+                        run_schedule(r, &w, w.len(), Chunking::Cuts((1..=hl).collect()), true, false, false);
+                        for cut in 1..=hl.min(w.len() - 1).max(1) {
+                            if cut < w.len() {
+                                run_schedule(r, &w, w.len(), Chunking::Cuts(vec![cut]), l % 2 == 0, false, false);
+                            }
+                        }
+                        // two such packets back to back, and end of stream one byte short
+                        if l % 64 == 0 || (250..=260).contains(&l) {
+                            let mut two = w.clone();
+                            two.extend(&w);
+                            run_schedule(r, &two, two.len(), Chunking::Whole, false, false, false);
+                            run_schedule(r, &two, two.len() - 1, Chunking::Whole, false, false, false);
+                            run_schedule(r, &w, w.len() - 1, Chunking::Whole, false, false, false);
+                        }
+                        if (253..=257).contains(&l) {
+                            r.note("header_switch_points_crossed", &l.to_string());
+                        }
+                    }
+                }
+            }
+            l += threads;
+        }
+    });
+    // (ii) all short sequences x all chunkings x all EOF positions
+    let max_total = if quick { 13 } else { 15 };
+    let mut seqs: Vec<Vec<u8>> = vec![];
+    {
+        // packets: (header form, body len): short form 3+l ; FF form 5+l (non-shortest but legal for the reader)
+        fn rec(cur: &mut Vec<u8>, n: usize, max_total: usize, out: &mut Vec<Vec<u8>>) {
+            if n > 0 {
+                out.push(cur.clone());
+            }
+            if n == 4 {
+                return;
+            }
+            for ff in [false, true] {
+                let hl = if ff { 5 } else { 3 };
+                for l in 0..=max_total {
+                    if cur.len() + hl + l > max_total {
+                        break;
+                    }
+                    let start = cur.len();
+                    cur.push(0x04 + n as u8);
+                    cur.push(0x0f ^ l as u8);
+                    if ff {
+                        cur.extend([0xff, l as u8, 0]);
+                    } else {
+                        cur.push(l as u8);
+                    }
+                    // bodies that look like headers (FF bytes inside) to tempt a confused reader
+                    cur.extend((0..l).map(|i| if i % 2 == 0 { 0xff } else { 0x02 }));
+                    rec(cur, n + 1, max_total, out);
+                    cur.truncate(start);
+                }
+            }
+        }
+        rec(&mut vec![], 0, max_total, &mut seqs);
+    }
+    report.extra.insert("short_sequences".into(), json!(seqs.len()));
+    sharded(&mut report, threads, |shard, r| {
+        for (si, s) in seqs.iter().enumerate() {
+            if si % threads != shard {
+                continue;
+            }
+            let n = s.len();
+            for mask in 0u32..(1 << (n - 1)) {
+                let cuts: Vec<usize> = (1..n).filter(|i| mask & (1 << (i - 1)) != 0).collect();
+                for eof_at in 0..=n {
+                    run_schedule(r, s, eof_at, Chunking::Cuts(cuts.clone()), (mask as usize + eof_at) % 3 == 0, false, true);
+                }
+            }
+        }
+    });
+    // (iii) longer sequences, large bodies
+    let n_long = if quick { 300 } else { 20_000 };
+    sharded(&mut report, threads, |shard, r| {
+        let mut rng = Rng::derive(seed, 0xC04 + shard as u64);
+        for _ in 0..n_long / threads {
+            let np = 1 + rng.below(8) as usize;
+            let mut stream = vec![];
+            for _ in 0..np {
+                let l = match rng.below(10) {
+                    0 => 254,
+                    1 => 255,
+                    2 => 256,
+                    3 => 65535,
+                    4 => rng.below(65536) as usize,
+                    _ => rng.below(40) as usize,
+                };
+                stream.extend([rng.byte(), rng.byte()]);
+                if l >= 255 || rng.chance(1, 10) {
+                    stream.extend([0xff, l as u8, (l >> 8) as u8]);
+                } else {
+                    stream.push(l as u8);
+                }
+                let fill = rng.byte();
+                stream.extend(std::iter::repeat(fill).take(l));
+            }
+            let n = stream.len();
+            run_schedule(r, &stream, n, Chunking::Whole, false, true, false);
+            if n <= 600 {
+                run_schedule(r, &stream, n, Chunking::Bytewise, rng.chance(1, 2), true, false);
+                for cut in 1..n {
+                    run_schedule(r, &stream, n, Chunking::Cuts(vec![cut]), false, true, false);
+                }
+                for eof_at in 0..n {
+                    run_schedule(r, &stream, eof_at, Chunking::Whole, false, true, false);
+                }
+            }
+            for _ in 0..8 {
+                let k = 1 + rng.below(12) as usize;
+                let mut cuts: Vec<usize> = (0..k).map(|_| 1 + rng.below(n as u64 - 1) as usize).collect();
+                cuts.sort();
+                cuts.dedup();
+                let eof_at = if rng.chance(1, 2) { n } else { rng.below(n as u64 + 1) as usize };
+                run_schedule(r, &stream, eof_at, Chunking::Cuts(cuts), rng.chance(1, 2), true, false);
+            }
+        }
+    });
+    report.finish()
+}
